@@ -5,7 +5,7 @@ import MpsVerif.Drv.Util
 /-! Trace-validation and differential driver for the `async_fifo_stream` model (`drv afifo`).
 
 Protocol (one line each):
-* `case <id> n= cap= rexc= src=clean|exc pf=i,j re=i,j` — opens a case;
+* `case <id> n= cap= rexc= src=clean|exc pf=i,j re=i,j [detach=1]` — opens a case (`detach`: see `tausFor`);
 * `e <event> [idx [idx2]]` — an observed event of the real run (`yld t x`: outcome of awaitable `t`
   delivered, paired with element `x` when `return_x`);
 * `end out=<k> raised=none|src|item:<i> close=0|1 final=0|1 [partial=1]` — closes the case; answer
@@ -27,20 +27,31 @@ def tauActs : List Act :=
   [.fcheck, .stopSeen, .put, .unbound, .putEnd, .putExc, .get, .raiseItem, .setStop,
    .drainCancel, .drainCancelRun, .drainDetach, .drainSkip, .drainMark, .drainEmpty, .reap]
 
+/-- internal actions the validator may infer.  `detach = false`: the awaitables are asyncio *tasks*
+    (`AsyncParmapperAsync`, `create_task`): cancelling is `drainCancel` / `drainCancelRun`;
+    `detach = true`: they are plain futures standing for work done elsewhere (`AsyncServer._enqueue`,
+    `run_in_executor`): cancelling is `drainDetach`.  (Restricting the candidates only makes
+    acceptance harder; it keeps the set of compatible states small.) -/
+def tausFor (detach : Bool) : List Act :=
+  tauActs.filter fun a =>
+    if detach then !(a == .drainCancel || a == .drainCancelRun) else !(a == .drainDetach)
+
 /-- `stepf` is `AFifo.step` (the model the theorems are about) or `AFifoStale.step` (the pinned,
     defective behaviour: used only to *name* defect F1 when the main model rejects a trace) -/
-def sysOf (stepf : Cfg → State → Act → Option State) (c : Cfg) : LSys State Act Act :=
+def sysOf (stepf : Cfg → State → Act → Option State) (detach : Bool) (c : Cfg) : LSys State Act Act :=
   { step := stepf c
     label := fun a => if isTau a then none else some a
-    taus := fun _ => tauActs
+    taus := fun _ => tausFor detach
     cands := fun _ e => if isTau e then [] else [e] }
 
-def sys (c : Cfg) : LSys State Act Act := sysOf step c
+def sys (c : Cfg) : LSys State Act Act := sysOf step false c
 
-theorem sysOf_wf (stepf : Cfg → State → Act → Option State) (c : Cfg) : WF (sysOf stepf c) := by
+theorem sysOf_wf (stepf : Cfg → State → Act → Option State) (detach : Bool) (c : Cfg) :
+    WF (sysOf stepf detach c) := by
   constructor
   · intro s a ha
-    simp only [sysOf, tauActs, List.mem_cons, List.not_mem_nil, or_false] at ha
+    replace ha : a ∈ tauActs := (List.mem_filter.mp ha).1
+    simp only [tauActs, List.mem_cons, List.not_mem_nil, or_false] at ha
     rcases ha with h | h | h | h | h | h | h | h | h | h | h | h | h | h | h | h <;> subst h <;> rfl
   · intro s e a ha
     simp only [sysOf] at ha ⊢
@@ -48,7 +59,7 @@ theorem sysOf_wf (stepf : Cfg → State → Act → Option State) (c : Cfg) : WF
     · simp at ha
     · simp at ha; subst ha; simp_all
 
-theorem sys_wf (c : Cfg) : WF (sys c) := sysOf_wf step c
+theorem sys_wf (c : Cfg) : WF (sys c) := sysOf_wf step false c
 
 /-- a recorded event: the action it stands for and the indices the implementation reported -/
 structure Ev where
@@ -108,6 +119,7 @@ structure St where
   k : Nat := 0
   dead : Bool := true      -- no case open / already rejected
   maxStates : Nat := 0
+  detach : Bool := false
 
 def summaryOk (kv : List (String × String)) (s : State) : Bool :=
   s.out.length == Drv.getN kv "out" && showRaised s.raised == Drv.getS kv "raised" "none"
@@ -120,7 +132,8 @@ partial def loop (stepf : Cfg → State → Act → Option State) (h : IO.FS.Str
   match ws with
   | "case" :: id :: rest =>
     let c := mkCfg (Drv.kvs rest)
-    loop stepf h { id := id, cfg := c, fuel := c.cap + 10, ss := [init], k := 0, dead := false }
+    loop stepf h { id := id, cfg := c, fuel := c.cap + 10, ss := [init], k := 0, dead := false,
+                   detach := Drv.getN (Drv.kvs rest) "detach" == 1 }
   | "e" :: name :: rest =>
     if st.dead then loop stepf h st else
     let idx := rest.head?.bind String.toNat?
@@ -130,15 +143,15 @@ partial def loop (stepf : Cfg → State → Act → Option State) (h : IO.FS.Str
       IO.println s!"REJECT {st.id} {st.k} bad-event {name}"
       loop stepf h { st with dead := true }
     | some a =>
-      let ss' := vstep (sysOf stepf st.cfg) st.fuel Ev.act keep st.ss { act := a, idx := idx, idx2 := idx2 }
+      let ss' := vstep (sysOf stepf st.detach st.cfg) st.fuel Ev.act keep st.ss { act := a, idx := idx, idx2 := idx2 }
       if ss'.isEmpty then
-        IO.println s!"REJECT {st.id} {st.k} event `{name} {rest}` not enabled in any of {(tauClose (sysOf stepf st.cfg) st.fuel st.ss).length} compatible model states"
+        IO.println s!"REJECT {st.id} {st.k} event `{name} {rest}` not enabled in any of {(tauClose (sysOf stepf st.detach st.cfg) st.fuel st.ss).length} compatible model states"
         loop stepf h { st with dead := true }
       else loop stepf h { st with ss := ss', k := st.k + 1, maxStates := max st.maxStates ss'.length }
   | "end" :: rest =>
     if st.dead then loop stepf h st else
     let kv := Drv.kvs rest
-    let fin := tauClose (sysOf stepf st.cfg) st.fuel st.ss
+    let fin := tauClose (sysOf stepf st.detach st.cfg) st.fuel st.ss
     let wantFinal := Drv.getN kv "final" == 1
     let partialRun := Drv.getN kv "partial" == 1
     let good := fin.filter (fun s => partialRun || (summaryOk kv s && (!wantFinal || decide (Final s))))
